@@ -254,7 +254,7 @@ func (fc *fnCtx) emitQ(st *State, name, kind, clause, loc, goal string, props []
 	asserts.WriteString("(assert " + not(goal) + ")\n")
 	all := body + asserts.String()
 	ax := fc.e.axiomText(fc, st, all)
-	sb.WriteString(preludeFor(all, ax))
+	sb.WriteString(preludeForKind(all, ax, kind))
 	sb.WriteString(ax)
 	sb.WriteString(body)
 	sb.WriteString(asserts.String())
@@ -679,6 +679,45 @@ func (fc *fnCtx) callWrites(st *State, fr *frame, call *ssa.Call, inLoop func(ss
 					}
 				}
 				precise(region, t)
+				// a concrete receiver with a model clause: its representation may change too
+				if named, ok := derefNamed(obj.GT); ok && strings.HasPrefix(region, "M.") {
+					if _, isIface := named.Underlying().(*types.Interface); !isIface {
+						pkg := ""
+						if named.Obj().Pkg() != nil {
+							pkg = named.Obj().Pkg().Name()
+						}
+						if ts := fc.e.contracts.Types[pkg+"."+named.Obj().Name()]; ts != nil && ts.Models[strings.TrimPrefix(region, "M.")] != nil {
+							whole[region] = true
+							if stt, ok := named.Underlying().(*types.Struct); ok {
+								var walk func(e Expr)
+								walk = func(e Expr) {
+									switch x := e.(type) {
+									case *FieldE:
+										if id, ok := x.X.(*Ident); ok && id.Name == "this" {
+											for i := 0; i < stt.NumFields(); i++ {
+												if f := stt.Field(i); f.Name() == x.Name {
+													rn := fieldRegion(named.Origin(), f.Name())
+													fc.region(st, rn, regionArraySort(sortOfType(f.Type())))
+													precise(rn, obj.T)
+												}
+											}
+										} else {
+											walk(x.X)
+										}
+									case *CallE:
+										for _, a := range x.Args {
+											walk(a)
+										}
+									case *Binary:
+										walk(x.X)
+										walk(x.Y)
+									}
+								}
+								walk(ts.Models[strings.TrimPrefix(region, "M.")].E)
+							}
+						}
+					}
+				}
 			}()
 		}
 	}
